@@ -359,6 +359,8 @@ pub struct RefOut {
     pub conn_right: Vec<u64>,
     /// largest absolute prefix cost seen (to respect the i32 precondition)
     pub max_abs: i64,
+    /// for every boundary that was processed: the position where its words start (after skipped spaces)
+    pub word_start: Vec<Option<usize>>,
 }
 
 pub struct RefDict<'a> {
@@ -391,6 +393,7 @@ impl<'a> RefDict<'a> {
             processed: vec![false; n + 1],
             conn_left: vec![0; self.nl],
             conn_right: vec![0; self.nr],
+            word_start: vec![None; n + 1],
             ..Default::default()
         };
         if n == 0 {
@@ -516,6 +519,7 @@ impl<'a> RefDict<'a> {
                 ends[c.end].push((c.r, tot, cnt));
             }
             out.processed[w] = true;
+            out.word_start[p] = Some(w);
             out.cands_at[w] = cands;
             p = w + 1;
             last_boundary = p;
@@ -540,5 +544,44 @@ impl<'a> RefDict<'a> {
             out.max_abs = out.max_abs.max(best.abs());
         }
         out
+    }
+}
+
+impl<'a> RefDict<'a> {
+    /// Second, deliberately different oracle for short sentences: enumerates EVERY complete
+    /// sequence of candidates recursively (no dynamic programming) and returns the cheapest total
+    /// including the connections from and to id 0. `None` if no complete sequence exists or the
+    /// enumeration exceeds `limit` sequences.
+    pub fn brute_force_min(&self, rout: &RefOut, limit: u64) -> Option<i64> {
+        fn rec(d: &RefDict, rout: &RefOut, b: usize, prev_r: u16, cost: i64, best: &mut Option<i64>, budget: &mut u64) -> bool {
+            if b == rout.last_boundary {
+                let t = cost + d.conn(prev_r, 0);
+                if best.map_or(true, |x| t < x) {
+                    *best = Some(t);
+                }
+                if *budget == 0 {
+                    return false;
+                }
+                *budget -= 1;
+                return true;
+            }
+            let w = match rout.word_start.get(b).copied().flatten() {
+                Some(w) => w,
+                None => return true, // dead end
+            };
+            for c in &rout.cands_at[w] {
+                if !rec(d, rout, c.end, c.r, cost + d.conn(prev_r, c.l) + c.cost as i64, best, budget) {
+                    return false;
+                }
+            }
+            true
+        }
+        let mut best = None;
+        let mut budget = limit;
+        if rec(self, rout, 0, 0, 0, &mut best, &mut budget) {
+            best
+        } else {
+            None
+        }
     }
 }
